@@ -134,6 +134,12 @@ type Engine struct {
 	// wgListener is used to wait for the accept loops to exit.
 	wgListener sync.WaitGroup
 
+	// stopMux makes adding a connection atomic with respect to Stop:
+	// a connection is either added before Stop collects the connections,
+	// or refused.
+	stopMux sync.Mutex
+	stopped bool
+
 	// store std connections, for Windows only.
 	connsStd map[*Conn]struct{}
 
@@ -209,6 +215,10 @@ func (g *Engine) Stop() {
 	// it would be missing in the connections collected below and stay open.
 	g.wgListener.Wait()
 
+	g.stopMux.Lock()
+	g.stopped = true
+	g.stopMux.Unlock()
+
 	g.mux.Lock()
 	conns := g.connsStd
 	g.connsStd = map[*Conn]struct{}{}
@@ -276,6 +286,13 @@ func (g *Engine) AddConn(conn net.Conn) (*Conn, error) {
 	c, err := NBConn(conn)
 	if err != nil {
 		return nil, err
+	}
+
+	g.stopMux.Lock()
+	defer g.stopMux.Unlock()
+	if g.stopped {
+		_ = c.Close()
+		return nil, ErrEngineStopped
 	}
 
 	p := g.pollers[c.Hash()%len(g.pollers)]
